@@ -9,4 +9,5 @@ NEXT Next
 CHECK_DEADLOCK FALSE
 INVARIANTS
   TypeOK
+  UnreadTouchesNothing
   Contained
